@@ -484,7 +484,11 @@ def _container(kind, names):
         return tuple(names)
     if kind == 3:
         return frozenset(names)
-    return {n: None for n in names}.keys()
+    if kind == 4:
+        return {n: None for n in names}.keys()
+    if kind == 5:
+        return iter(list(names))          # one-shot iterators are Iterables too
+    return (n for n in list(names))
 
 
 def op_quant(w, ins):
